@@ -91,10 +91,14 @@ pub trait ScopeOps {
     fn iter_mut(&mut self, esz: usize, eal: usize, rev: bool, hint: usize, n: usize, tags: &[u8], via: &str) -> Result<(usize, Vec<u8>), ()>;
     /// alloc_fmt_mut / alloc_cstr_fmt_mut with a Display value that writes the given pieces: (address, bytes incl. NUL)
     fn fmt_mut(&mut self, pieces: &[Vec<u8>], cstr: bool, via: &str) -> Result<(usize, Vec<u8>), ()>;
+    /// alloc_iter with an iterator that claims `hint` elements and yields the tags: (address, bytes of the final slice)
+    fn iter_grow(&self, esz: usize, eal: usize, hint: usize, tags: &[u8], via: &str) -> Result<(usize, Vec<u8>), ()>;
+    /// alloc_fmt / alloc_cstr_fmt with a Display value that writes the given pieces: (address, bytes incl. NUL)
+    fn fmt_grow(&self, pieces: &[Vec<u8>], cstr: bool, via: &str) -> Result<(usize, Vec<u8>), ()>;
     /// creates a growable vector (BumpVec<T, A>) with A = a shared reference to this handle, possibly wrapped
     fn vec_new<'s>(&'s self, esz: usize, eal: usize, c0: usize, wrap: Wrap) -> Result<Box<dyn VecOps + 's>, ()>;
     /// creates an exclusive-borrow collection of elements of layout (esz, eal) with initial capacity c0
-    fn prep<'s>(&'s mut self, esz: usize, eal: usize, rev: bool, via: &str, c0: usize) -> Result<Box<dyn PrepOps + 's>, ()>;
+    fn prep<'s>(&'s mut self, esz: usize, eal: usize, rev: bool, via: &str, c0: usize, init: Option<u8>) -> Result<Box<dyn PrepOps + 's>, ()>;
 }
 
 /// An exclusive-borrow collection being filled (MutBumpVec / MutBumpVecRev, or the raw prepare/commit interface).
@@ -102,6 +106,8 @@ pub trait PrepOps {
     /// push one element whose bytes are all `tag`
     fn push(&mut self, tag: u8) -> Result<(), ()>;
     fn reserve(&mut self, additional: usize) -> Result<(), ()>;
+    /// the panicking twin of reserve (used for requests that must end in an unwinding panic)
+    fn reserve_panicking(&mut self, additional: usize);
     /// append the elements whose bytes are the given tags in one call (extend_from_slice_copy / push_str)
     fn extend(&mut self, tags: &[u8]) -> Result<(), ()>;
     fn len(&self) -> usize;
@@ -659,6 +665,68 @@ macro_rules! impl_scope_ops {
                 })
             }
         }
+        fn iter_grow(&self, esz: usize, eal: usize, hint: usize, tags: &[u8], via: &str) -> Result<(usize, Vec<u8>), ()> {
+            macro_rules! go {
+                ($t:ty) => {{
+                    let items: Vec<$t> = tags.iter().map(|&t| <$t>::make(t)).collect();
+                    let it = LyingIter { items: items.into_iter(), hint };
+                    let ts = self.tscope();
+                    let r = match via {
+                        "panicking" | "typed" => Ok(self.alloc_iter(it)),
+                        "dyn" => {
+                            let d: &dyn BumpAllocatorCoreScope<'_> = ts;
+                            BumpAllocatorTypedScope::try_alloc_iter(d, it).map_err(|_| ())
+                        }
+                        "ref" => BumpAllocatorTypedScope::try_alloc_iter(&ts, it).map_err(|_| ()),
+                        "layout" => self.try_alloc_iter(it).map_err(|_| ()),
+                        _ => BumpAllocatorTypedScope::try_alloc_iter(ts, it).map_err(|_| ()),
+                    };
+                    r.map(|b| {
+                        let (a, _, bytes) = boxed_out(b);
+                        (a, bytes)
+                    })
+                }};
+            }
+            match (esz, eal) {
+                (1, 1) => go!(u8),
+                (8, 8) => go!(u64),
+                (32, 32) => go!(A32),
+                _ => panic!("no element type for layout ({esz}, {eal})"),
+            }
+        }
+        fn fmt_grow(&self, pieces: &[Vec<u8>], cstr: bool, via: &str) -> Result<(usize, Vec<u8>), ()> {
+            let pv = Pieces(pieces);
+            let ts = self.tscope();
+            if cstr {
+                let r = match via {
+                    "panicking" | "typed" => Ok(self.alloc_cstr_fmt(format_args!("{}", pv))),
+                    "dyn" => {
+                        let d: &dyn BumpAllocatorCoreScope<'_> = ts;
+                        BumpAllocatorTypedScope::try_alloc_cstr_fmt(d, format_args!("{}", pv)).map_err(|_| ())
+                    }
+                    "layout" => self.try_alloc_cstr_fmt(format_args!("{}", pv)).map_err(|_| ()),
+                    _ => BumpAllocatorTypedScope::try_alloc_cstr_fmt(ts, format_args!("{}", pv)).map_err(|_| ()),
+                };
+                r.map(|c| {
+                    let b = c.to_bytes_with_nul();
+                    (v(NonNull::new(b.as_ptr() as *mut u8).unwrap()), b.to_vec())
+                })
+            } else {
+                let r = match via {
+                    "panicking" | "typed" => Ok(self.alloc_fmt(format_args!("{}", pv))),
+                    "dyn" => {
+                        let d: &dyn BumpAllocatorCoreScope<'_> = ts;
+                        BumpAllocatorTypedScope::try_alloc_fmt(d, format_args!("{}", pv)).map_err(|_| ())
+                    }
+                    "layout" => self.try_alloc_fmt(format_args!("{}", pv)).map_err(|_| ()),
+                    _ => BumpAllocatorTypedScope::try_alloc_fmt(ts, format_args!("{}", pv)).map_err(|_| ()),
+                };
+                r.map(|b| {
+                    let (a, _, bytes) = boxed_out(b);
+                    (a, bytes)
+                })
+            }
+        }
         fn iter_mut(&mut self, esz: usize, eal: usize, rev: bool, hint: usize, _n: usize, tags: &[u8], via: &str) -> Result<(usize, Vec<u8>), ()> {
             macro_rules! go {
                 ($t:ty) => {{
@@ -777,11 +845,16 @@ where
         }
     }
 
-    fn prep<'s>(&'s mut self, esz: usize, eal: usize, rev: bool, via: &str, c0: usize) -> Result<Box<dyn PrepOps + 's>, ()> {
+    fn prep<'s>(&'s mut self, esz: usize, eal: usize, rev: bool, via: &str, c0: usize, init: Option<u8>) -> Result<Box<dyn PrepOps + 's>, ()> {
         if via == "dyn" {
             let mut d = DynPrep { h: &*self, esz, eal, rev, lo: 0, hi: 0, len: 0, cap: 0, tags: Vec::new() };
             if c0 > 0 {
                 d.grow_to(c0)?;
+            }
+            if let Some(t) = init {
+                for _ in 0..c0 {
+                    d.push(t)?;
+                }
             }
             return Ok(Box::new(d));
         }
@@ -791,7 +864,14 @@ where
         }
         macro_rules! mk {
             ($t:ty) => {
-                if rev {
+                if let Some(t) = init {
+                    // from_elem_in: capacity c0, then c0 elements without a further capacity check
+                    if rev {
+                        Ok(Box::new(MutBumpVecRev::<$t, _>::try_from_elem_in(<$t>::make(t), c0, self).map_err(|_| ())?))
+                    } else {
+                        Ok(Box::new(MutBumpVec::<$t, _>::try_from_elem_in(<$t>::make(t), c0, self).map_err(|_| ())?))
+                    }
+                } else if rev {
                     let v = if c0 == 0 { MutBumpVecRev::<$t, _>::new_in(self) } else { MutBumpVecRev::<$t, _>::try_with_capacity_in(c0, self).map_err(|_| ())? };
                     Ok(Box::new(v))
                 } else {
@@ -821,6 +901,9 @@ where
     }
     fn reserve(&mut self, additional: usize) -> Result<(), ()> {
         self.try_reserve(additional).map_err(|_| ())
+    }
+    fn reserve_panicking(&mut self, additional: usize) {
+        MutBumpVec::reserve(self, additional)
     }
     fn extend(&mut self, tags: &[u8]) -> Result<(), ()> {
         let vals: Vec<T> = tags.iter().map(|&t| T::make(t)).collect();
@@ -858,6 +941,9 @@ where
     fn reserve(&mut self, additional: usize) -> Result<(), ()> {
         self.try_reserve(additional).map_err(|_| ())
     }
+    fn reserve_panicking(&mut self, additional: usize) {
+        MutBumpVecRev::reserve(self, additional)
+    }
     fn extend(&mut self, tags: &[u8]) -> Result<(), ()> {
         // the slice is prepended as a whole: reversed, it equals pushing the tags one by one
         let vals: Vec<T> = tags.iter().rev().map(|&t| T::make(t)).collect();
@@ -894,6 +980,9 @@ where
     }
     fn reserve(&mut self, additional: usize) -> Result<(), ()> {
         self.try_reserve(additional).map_err(|_| ())
+    }
+    fn reserve_panicking(&mut self, additional: usize) {
+        MutBumpString::reserve(self, additional)
     }
     fn extend(&mut self, tags: &[u8]) -> Result<(), ()> {
         let text: String = tags.iter().map(|&t| (t & 0x7f).max(1) as char).collect();
@@ -979,6 +1068,11 @@ impl<'s, B: ScopeOps + BumpAllocatorCore> PrepOps for DynPrep<'s, B> {
             self.grow_to(ncap)?;
         }
         Ok(())
+    }
+    fn reserve_panicking(&mut self, additional: usize) {
+        if PrepOps::reserve(self, additional).is_err() {
+            panic!("capacity overflow");
+        }
     }
     fn extend(&mut self, tags: &[u8]) -> Result<(), ()> {
         PrepOps::reserve(self, tags.len())?;
@@ -1203,8 +1297,8 @@ where
             _ => panic!("bad alignment"),
         }
     }
-    fn prep<'s>(&'s mut self, esz: usize, eal: usize, rev: bool, via: &str, c0: usize) -> Result<Box<dyn PrepOps + 's>, ()> {
-        self.as_mut_scope().prep(esz, eal, rev, via, c0)
+    fn prep<'s>(&'s mut self, esz: usize, eal: usize, rev: bool, via: &str, c0: usize, init: Option<u8>) -> Result<Box<dyn PrepOps + 's>, ()> {
+        self.as_mut_scope().prep(esz, eal, rev, via, c0, init)
     }
     fn vec_new<'s>(&'s self, esz: usize, eal: usize, c0: usize, wrap: Wrap) -> Result<Box<dyn VecOps + 's>, ()> {
         // the same vector type as for a scope handle: BumpVec<T, &BumpScope> (through Bump::as_scope)
